@@ -133,6 +133,22 @@ CLAIMS = {
         technique="static analysis: constant/breakpoint extraction + finite-domain abstract evaluation of serialize/deserialize pairs (ast)",
         ref="DESIGN.md §3 C15",
     ),
+    "C16": dict(
+        text=(
+            "Decides C16 per module by abstract evaluation of the codec functions: (URL-RT) for nurikabe, masyu, slitherlink, "
+            "sudoku, nurimisaki, yajilin (all clue kinds incl. '??'), heyawake, lits, norinori and compass (to_/parse_), "
+            "decode(encode(p)) == p with dimensions on non-square boards (2x3, 3x2, 1x4, 4x5, 3x7...) over value families at "
+            "the codecs' breakpoints and over enumerated room partitions in two orderings; wrong puzzle names rejected; "
+            "(URL-HDR) every produced URL, incl. aquarium and star_battle, is name/width/height/body; (URL-REF) an independent "
+            "reference decoder of the pzpr encodings (number16, 4-cell, base-3 circles, border bits, arrow numbers) written in "
+            "the checker reads each body back as the same problem; (URL-LEG) util.encode_array / encode_grid_segmentation and "
+            "the combinator codecs give identical text; (DK-5/6) writer format strings put width first, the regex reader binds "
+            "group 2 to width and group 3 to height. Not decided: problems outside the evaluated families."
+        ),
+        note="Trusted: the abstract evaluator; the reference decoders in sa/rules/pzpr_ref.py as a rendering of the published pzpr conventions.",
+        technique="static analysis: abstract evaluation of codec pairs + independent reference decoder + format-order scan (ast)",
+        ref="DESIGN.md §3 C16",
+    ),
 }
 
 NOT_APPLICABLE = {
